@@ -31,8 +31,29 @@ def shards(tier):
 
 def run_shard(desc, acc, tier):
     fam, lo, hi = desc
+    seen = []
     for k, m in enumerate(families.family(fam)[lo:hi], start=lo):
-        check_model(m, acc, fam, k)
+        dg = check_model(m, acc, fam, k)
+        if dg is not None:
+            seen.append((k, m, dg))
+    # the same conversions again in REVERSE order: the system produced for a model must not depend on which models were converted before
+    # (neighbouring models differ in one value / one bound only, e.g. -1 vs -2, the pairs that collide under coarse hashing)
+    for k, m, dg in reversed(seen):
+        try:
+            now = digest(polyhedra(m))
+        except BaseException as e:
+            acc.violation(None, {"fam": fam, "k": k, "ast": m, "lo": lo, "reverse": True}, {"what": "to_ge_polyhedron raised in the reverse pass", "exc": repr(e)})
+            continue
+        acc.n("transitions", 2)
+        if now != dg:
+            acc.violation(None, {"fam": fam, "k": k, "ast": m, "lo": lo, "reverse": True},
+                          {"what": "the system produced for a model depends on which other models were converted before (history)", "model": show(m),
+                           "first_pass": dg, "reverse_pass": now})
+
+
+def digest(polys):
+    (A1, b1, ids1, _v1, _P1), (A0, b0, ids0, _v0, _P0) = polys
+    return repr((A1.tolist(), b1.tolist(), list(map(str, ids1)), A0.tolist(), b0.tolist(), list(map(str, ids0))))
 
 
 def polyhedra(m):
@@ -82,6 +103,7 @@ def check_model(m, acc, fam, k, only_alpha=None):
         return
     acc.n("transitions", 2)
     acc.obs(A1.tolist(), b1.tolist(), ids1, A0.tolist(), b0.tolist(), ids0)
+    dg_ = digest(((A1, b1, ids1, vars1, P1), (A0, b0, ids0, vars0, P0)))
     # structural: support column first, column variables carry the model's bounds, every id of the model is a column (top only if not asserted)
     want_bounds = {i: bd for i, bd in leaves.items()}
     for ci in comp_ids:
@@ -163,8 +185,12 @@ def check_model(m, acc, fam, k, only_alpha=None):
             acc.sample({"model": show(m), "alpha": alpha, "top": expect, "columns": [str(i) for i in ids1], "A": A1.tolist(), "b": b1.tolist()})
     if len(tv) > 1:
         acc.nontriv(m)
+    return dg_
 
 
 def replay(case, acc):
     from ..runner import tuplify
+    if case.get("reverse"):
+        run_shard((case["fam"], case["lo"], case["k"] + 1), acc, "quick")
+        return
     check_model(tuplify(case["ast"]), acc, case["fam"], case["k"], only_alpha=case.get("alpha"))
